@@ -47,17 +47,18 @@ def stamp_set(name, digest):
 def repo_sources():
     l = [os.path.join(REPO, 'lltdResponder', f) for f in os.listdir(os.path.join(REPO, 'lltdResponder'))]
     l += [os.path.join(REPO, 'os/esp32/daemon/lltd_esp32.c'), os.path.join(REPO, 'os/esp32/daemon/lltd_esp32.h'),
-          os.path.join(REPO, 'os/darwin/daemon/darwin-main.c')]
+          os.path.join(REPO, 'os/darwin/daemon/darwin-main.c'), os.path.join(REPO, 'scripts/lint_core_no_os_conditionals.sh')]
     return l
 def harness_sources():
     d = os.path.join(VERIF, 'harness')
-    return [os.path.join(d, f) for f in os.listdir(d)] + [os.path.join(VERIF, 'bin/slice_flow.py'), os.path.join(VERIF, 'bin/genfacts.py')]
+    return [os.path.join(d, f) for f in os.listdir(d)] + [os.path.join(VERIF, 'bin/slice_flow.py'), os.path.join(VERIF, 'bin/genfacts.py'), os.path.join(VERIF, 'bin/symfacts.py')]
 
 def build_facts():
     """probe -> facts -> coq/gen/Extracted.v (rewritten only when changed)"""
     dig = file_hash(repo_sources() + harness_sources())
     ext = os.path.join(COQ, 'gen/Extracted.v')
-    if stamp_ok('facts', dig) and os.path.exists(ext):
+    sym = os.path.join(COQ, 'gen/Symbols.v')
+    if stamp_ok('facts', dig) and os.path.exists(ext) and os.path.exists(sym):
         return
     inc = os.path.join(REPO, 'lltdResponder')
     rc, out = sh(['gcc', '-w', '-I' + inc, '-o', os.path.join(BUILD, 'probe'), os.path.join(VERIF, 'harness/probe.c')]
@@ -68,6 +69,8 @@ def build_facts():
     open(os.path.join(BUILD, 'facts.txt'), 'w').write(out)
     rc, out2 = sh([sys.executable, os.path.join(VERIF, 'bin/genfacts.py'), os.path.join(BUILD, 'facts.txt'), ext])
     if rc != 0: raise BuildError('genfacts failed', out2)
+    rc, out3 = sh([sys.executable, os.path.join(VERIF, 'bin/symfacts.py'), REPO, BUILD, sym], timeout=600)
+    if rc != 0: raise BuildError('symfacts failed', out3)
     stamp_set('facts', dig)
 
 def facts():
@@ -106,6 +109,16 @@ def build_linuxport():
                   os.path.join(VERIF, 'harness/linuxport_main.c'), os.path.join(REPO, 'os/linux/lltd_port.c')])
     if rc != 0: raise BuildError('the Linux platform layer does not compile into the getter harness', out)
     stamp_set('linuxport', dig); return exe
+
+def build_race():
+    """core + harness/race.c under ThreadSanitizer"""
+    srcs = repo_sources() + [os.path.join(VERIF, 'harness/race.c')]
+    dig = file_hash(srcs); exe = os.path.join(BUILD, 'race')
+    if stamp_ok('race', dig) and os.path.exists(exe): return exe
+    inc = os.path.join(REPO, 'lltdResponder')
+    rc, out = sh(['gcc', '-O1', '-g', '-fsanitize=thread', '-w', '-I' + inc, '-o', exe, os.path.join(VERIF, 'harness/race.c')] + [os.path.join(inc, f) for f in CORE] + ['-lpthread'])
+    if rc != 0: raise BuildError('the two-thread harness does not compile against the working tree', out)
+    stamp_set('race', dig); return exe
 
 def coq_makefile():
     mk = os.path.join(COQ, 'Makefile.coq')
